@@ -1,22 +1,212 @@
-(** * Gallina transliteration of the success exit of [distance3d/epa.py: epa()], generic in the
-      arithmetic.  NO proofs here.  Only the last step is modelled (the polytope bookkeeping is not):
+(** * Gallina transliteration of [distance3d/epa.py] (as of /repo 3c14c49: the initial tetrahedron
+      is oriented), generic in the arithmetic [Ops F].  NO proofs here.
 
-        search_direction = closest_face[3]
-        new_point = collider1.support_function(search_direction) - collider2.support_function(-search_direction)
-        if np.dot(new_point, search_direction) - min_dist < epsilon:
-            mtv = closest_face[3] * np.dot(new_point, search_direction)
-            return mtv, ..., True *)
+    Line by line: epa(), Polytope.{_initialize_from_simplex, compute_normal,
+    find_face_closest_to_origin, remove_face, triangle_faces_point, extend_with_point,
+    fix_ccw_normal_direction}, LooseEdges.{find_triangles_facing_point_and_store_loose_edges,
+    add_removed_triangles_edges_to_list, edge_already_in_list, add_edge_to_list,
+    overwrite_edge_with_last_edge}.
+    The face array [faces[:n_faces]] is a list (same order); the two colliders enter as one function
+    [sup d = (collider1.support_function(d), collider2.support_function(-d))].
+    Not modelled: the value returned when max_iter is exhausted (it is read through a numpy view of a
+    slot that the last update may have overwritten) -- the model returns [EpaNotConverged] there;
+    NaN ordering in np.argmin.  Capacity: [assert self.n_faces < self.max_faces] is [EpaCapacity]. *)
 From Coq Require Import QArith List Bool.
-From D3 Require Import Base.Ops Base.Vec.
+From D3 Require Import Base.Ops Base.Vec Model.DistPrim.
+Import ListNotations.
 
 Section Epa.
   Context {F : Type} {O : Ops F}.
   Local Open Scope ops_scope.
 
-  (** new_point and the convergence test; [pa], [pb] are what the two support functions returned *)
+  Record face := Face { fa : V3 F; fb : V3 F; fc : V3 F; fn : V3 F }.
+  Definition edge := (V3 F * V3 F)%type.
+
+  (** compute_normal *)
+  Definition compute_normal (a b c : V3 F) : V3 F := norm_vector (cross (vsub b a) (vsub c a)).
+  Definition mk_face (a b c : V3 F) : face := Face a b c (compute_normal a b c).
+
+  (** _initialize_from_simplex: ABC, ACD, ADB, BDC after the orientation swap of rows 1 and 2 *)
+  Definition init_flip (s0 s1 s2 s3 : V3 F) : bool :=
+    zero <? dot (cross (vsub s1 s0) (vsub s2 s0)) (vsub s3 s0).
+  Definition init_faces (s0 s1 s2 s3 : V3 F) : list face :=
+    let b := if init_flip s0 s1 s2 s3 then s2 else s1 in
+    let c := if init_flip s0 s1 s2 s3 then s1 else s2 in
+    [mk_face s0 b c; mk_face s0 c s3; mk_face s0 s3 b; mk_face b s3 c].
+
+  (** find_face_closest_to_origin: np.argmin of sum(faces[:, 0] * faces[:, 3], axis=1) (first minimum) *)
+  Definition face_dist (f : face) : F := dot (fa f) (fn f).
+  Fixpoint closest_from (fs : list face) (best : face) (bd : F) : F * face :=
+    match fs with
+    | [] => (bd, best)
+    | f :: r => if face_dist f <? bd then closest_from r f (face_dist f) else closest_from r best bd
+    end.
+  Definition closest_face (fs : list face) : option (F * face) :=
+    match fs with
+    | [] => None
+    | f :: r => Some (closest_from r f (face_dist f))
+    end.
+
+  (** triangle_faces_point *)
+  Definition faces_point (eps : F) (f : face) (w : V3 F) : bool := eps <? dot (fn f) (vsub w (fa f)).
+
+  (** edge_already_in_list *)
+  Definition edge_matches (eps : F) (l cur : edge) : bool :=
+    (norm (vsub (snd l) (fst cur)) <? eps) && (norm (vsub (fst l) (snd cur)) <? eps).
+
+  (** overwrite_edge_with_last_edge at the first matching index, or None *)
+  Fixpoint remove_first_match (eps : F) (ls : list edge) (cur : edge) : option (list edge) :=
+    match ls with
+    | [] => None
+    | l :: r =>
+      if edge_matches eps l cur then
+        (* loose_edges[k] = loose_edges[n - 1]; n -= 1 *)
+        Some (match rev r with [] => [] | lastE :: _ => lastE :: removelast r end)
+      else match remove_first_match eps r cur with
+           | Some r' => Some (l :: r')
+           | None => None
+           end
+    end.
+
+  (** add_removed_triangles_edges_to_list for one face; [break]s silently when the list is full *)
+  Fixpoint add_face_edges (eps : F) (max_loose : nat) (ls : list edge) (es : list edge) : list edge :=
+    match es with
+    | [] => ls
+    | cur :: r =>
+      match remove_first_match eps ls cur with
+      | Some ls' => add_face_edges eps max_loose ls' r
+      | None => if (max_loose <=? length ls)%nat then ls else add_face_edges eps max_loose (ls ++ [cur]) r
+      end
+    end.
+  Definition face_edges (f : face) : list edge := [(fa f, fb f); (fb f, fc f); (fc f, fa f)].
+
+  (** remove_face(i): faces[i] = faces[n - 1]; n -= 1 *)
+  Definition remove_face (fs : list face) (i : nat) : list face :=
+    match rev fs with
+    | [] => []
+    | lastF :: _ =>
+      let fs' := removelast fs in
+      if (i =? length fs')%nat then fs' else firstn i fs' ++ lastF :: skipn (S i) fs'
+    end.
+
+  (** find_triangles_facing_point_and_store_loose_edges *)
+  Fixpoint remove_facing (fuel : nat) (eps : F) (max_loose : nat) (fs : list face) (ls : list edge)
+           (i : nat) (w : V3 F) : list face * list edge :=
+    match fuel with
+    | 0%nat => (fs, ls)
+    | S fuel' =>
+      match nth_error fs i with
+      | None => (fs, ls)
+      | Some f =>
+        if faces_point eps f w
+        then remove_facing fuel' eps max_loose (remove_face fs i) (add_face_edges eps max_loose ls (face_edges f)) i w
+        else remove_facing fuel' eps max_loose fs ls (S i) w
+      end
+    end.
+
+  (** fix_ccw_normal_direction (bias 1e-6).  The code "swaps" rows 0 and 1 through
+        temp = self.faces[face_idx, 0]          (a numpy VIEW of row 0)
+        self.faces[face_idx, 0] = self.faces[face_idx, 1]
+        self.faces[face_idx, 1] = temp          (row 0 again, i.e. the old row 1)
+      so both rows end up equal to the old row 1; the model does the same. *)
+  Definition bias : F := cst (4722366482869645 # 4722366482869645213696).
+  Definition fix_ccw (f : face) : face :=
+    if dot (fa f) (fn f) + bias <? zero then Face (fb f) (fb f) (fc f) (vneg (fn f)) else f.
+
+  (** extend_with_point; None = the capacity assertion fails *)
+  Fixpoint extend (max_faces : nat) (fs : list face) (ls : list edge) (w : V3 F) : option (list face) :=
+    match ls with
+    | [] => Some fs
+    | (e0, e1) :: r =>
+      if (max_faces <=? length fs)%nat then None
+      else
+        let f := mk_face e0 e1 w in
+        if norm (fn f) <? cst (1 # 2) then extend max_faces fs r w
+        else extend max_faces (fs ++ [fix_ccw f]) r w
+    end.
+
+  Inductive epa_result :=
+  | EpaSuccess (mtv : V3 F) (faces : list face)
+  | EpaNotConverged
+  | EpaCapacity
+  | EpaEmpty.
+
+  (** the main loop; [fuel] = max_iter *)
+  Fixpoint epa_loop (fuel : nat) (sup : V3 F -> V3 F * V3 F) (eps : F) (max_loose max_faces : nat)
+           (fs : list face) : epa_result :=
+    match fuel with
+    | 0%nat => EpaNotConverged
+    | S fuel' =>
+      match closest_face fs with
+      | None => EpaEmpty
+      | Some (min_dist, cf) =>
+        let d := fn cf in
+        let '(p1, p2) := sup d in
+        let w := vsub p1 p2 in
+        if dot w d - min_dist <? eps then EpaSuccess (vscale (dot w d) d) fs
+        else
+          let '(fs1, ls) := remove_facing (length fs) eps max_loose fs [] 0%nat w in
+          match extend max_faces fs1 ls w with
+          | None => EpaCapacity
+          | Some fs2 => epa_loop fuel' sup eps max_loose max_faces fs2
+          end
+      end
+    end.
+
+  (** distance of the runner-up face minus the minimum (decision margin of np.argmin); None for one face *)
+  Fixpoint second_from (fs : list face) (b1 b2 : F) : F :=
+    match fs with
+    | [] => b2 - b1
+    | f :: r => let x := face_dist f in
+                if x <? b1 then second_from r x b1 else if x <? b2 then second_from r b1 x else second_from r b1 b2
+    end.
+  Definition argmin_margin (fs : list face) : option F :=
+    match fs with
+    | f :: g :: r => let x := face_dist f in let y := face_dist g in
+                     Some (if y <? x then second_from r y x else second_from r x y)
+    | _ => None
+    end.
+
+  (** the same loop, returning per iteration (n_faces, min_dist, new_point): observables for the
+      correspondence check *)
+  Fixpoint epa_trace (fuel : nat) (sup : V3 F -> V3 F * V3 F) (eps : F) (max_loose max_faces : nat)
+           (fs : list face) : list (nat * F * V3 F) :=
+    match fuel with
+    | 0%nat => []
+    | S fuel' =>
+      match closest_face fs with
+      | None => []
+      | Some (min_dist, cf) =>
+        let d := fn cf in
+        let '(p1, p2) := sup d in
+        let w := vsub p1 p2 in
+        (length fs, min_dist, w) ::
+        (if dot w d - min_dist <? eps then []
+         else
+           let '(fs1, ls) := remove_facing (length fs) eps max_loose fs [] 0%nat w in
+           match extend max_faces fs1 ls w with
+           | None => []
+           | Some fs2 => epa_trace fuel' sup eps max_loose max_faces fs2
+           end)
+      end
+    end.
+
+  Definition epa (sup : V3 F -> V3 F * V3 F) (s0 s1 s2 s3 : V3 F)
+             (max_iter max_loose max_faces : nat) (eps : F) : epa_result :=
+    epa_loop max_iter sup eps max_loose max_faces (init_faces s0 s1 s2 s3).
+
+  (** the success exit in isolation (used by the exit theorem) *)
   Definition epa_new_point (pa pb : V3 F) : V3 F := vsub pa pb.
-  Definition epa_converged (n pa pb : V3 F) (min_dist eps : F) : bool :=
-    dot (epa_new_point pa pb) n - min_dist <? eps.
-  (** closest_face[3] * np.dot(new_point, search_direction) *)
   Definition epa_exit_mtv (n pa pb : V3 F) : V3 F := vscale (dot (epa_new_point pa pb) n) n.
+
+  (** ConvexHullVertices.support_function: vertices[np.argmax(vertices.dot(d))] (first maximum) *)
+  Fixpoint hull_sup_from (vs : list (V3 F)) (d best : V3 F) (bv : F) : V3 F :=
+    match vs with
+    | [] => best
+    | v :: r => if bv <? dot v d then hull_sup_from r d v (dot v d) else hull_sup_from r d best bv
+    end.
+  Definition hull_sup (vs : list (V3 F)) (d : V3 F) : V3 F :=
+    match vs with [] => vzero | v :: r => hull_sup_from r d v (dot v d) end.
+  Definition hull_pair_sup (v1 v2 : list (V3 F)) (d : V3 F) : V3 F * V3 F :=
+    (hull_sup v1 d, hull_sup v2 (vneg d)).
 End Epa.
